@@ -48,6 +48,13 @@ pub fn configs(tier: Tier) -> Vec<Box<dyn Config>> {
         v.push(pairs(Plan::Cluster(2), if q { 4 } else { 6 }, Plan::Cluster(2), if q { 4 } else { 6 }, false, tier));
         v.push(pairs(Plan::Seq, if q { 4 } else { 5 }, Plan::Max, if q { 4 } else { 5 }, true, tier));
     }
+    // element type without drop glue whose Clone is user code: every element of a copy is made by Clone::clone
+    {
+        let mut c = MapCfg::new(Plan::Zero, if q { 5 } else { 8 });
+        c.max_buckets = if sse2 { 64 } else { 32 };
+        let label = format!("{}-plainclone-clones", c.label());
+        v.push(Box::new(crate::report::BfsConfig::new(label, MapHarness::<CKey, CVal>::new(c), Limits { max_wall_s: if q { 20.0 } else { 300.0 }, ..Default::default() })));
+    }
     v.push(Box::new(NonReflexiveEq));
     v.push(Box::new(StatelessHasherAndAllocIdentity));
     // clones of tables of zero-sized elements create exactly one new element per stored element
